@@ -182,3 +182,41 @@ func VerifInternals(t *Dense) VerifDenseInternals {
 
 // VerifRaw returns the tensor's raw byte window (aliasing, not a copy).
 func VerifRaw(t *Dense) []byte { return t.array.Header.Raw }
+
+// VerifMetaHash hashes t's metadata (access pattern, saved access pattern, transposition axes, flags,
+// mask bits, window address and length) without allocating.
+func VerifMetaHash(t *Dense) uint64 {
+	h := uint64(14695981039346656037)
+	add := func(v uint64) {
+		for i := 0; i < 8; i++ {
+			h = (h ^ (v & 0xff)) * 1099511628211
+			v >>= 8
+		}
+	}
+	ints := func(s []int) {
+		add(uint64(len(s)))
+		for _, v := range s {
+			add(uint64(v))
+		}
+	}
+	ints(t.AP.shape)
+	ints(t.AP.strides)
+	add(uint64(t.AP.o))
+	add(uint64(t.AP.Δ))
+	ints(t.old.shape)
+	ints(t.old.strides)
+	ints(t.transposeWith)
+	add(uint64(t.flag))
+	add(uint64(t.viewOf))
+	add(uint64(len(t.mask)))
+	for _, b := range t.mask {
+		if b {
+			add(1)
+		} else {
+			add(0)
+		}
+	}
+	add(uint64(len(t.array.Header.Raw)))
+	add(uint64(t.array.Uintptr()))
+	return h
+}
